@@ -1,4 +1,5 @@
 (* model: writer *)
+(* include: writerprint *)
 (* model side of harness bin `mlw` (see harness/src/mlw.rs for the formats) *)
 
 let parse_ops s =
@@ -49,11 +50,6 @@ let run_case line =
 
 
 (* the same W case as a Gallina equation, both sides printed from the parsed case and the extracted run *)
-let g_outcome = function WOk -> "WOk" | WIntr -> "WIntr" | WErr e -> "(WErr " ^ g_small_n e ^ ")"
-let g_op = function Flush -> "Flush" | Emit m -> "(Emit " ^ g_str m ^ ")"
-let g_ores = function
-  | OOk n -> "(OOk " ^ g_nat n ^ ")" | OErr e -> "(OErr " ^ g_small_n e ^ ")" | OIntr -> "OIntr" | OPanic -> "OPanic"
-
 let coq_header =
   "Require Import Cadence.Base.Prelude Cadence.Model.Writer.\n" ^
   "Definition kobs (r : list ores * st) := (fst r, map (fun a => (a_op a, a_bytes a, a_out a)) (lg (snd r))).\n"
